@@ -1,5 +1,6 @@
 import Taskpool.Props.C06
 import Taskpool.Inv.Count
+import Taskpool.Inv.Decimal
 /-! # C10 — Groups partition the tasks; names are unique and fresh -/
 namespace Taskpool
 open Pool
@@ -82,6 +83,14 @@ theorem C10_generated_fresh (p : Pool) (pre : String)
       exact hall i hi)
     simp only [List.length_map, List.length_range] at hle
     omega
+
+/-- **generated names are fresh — no assumption left.** Decimal rendering of naturals is injective (`Inv/Decimal.lean`,
+by induction over the digits with core's `Nat.toDigits_eq_if`), so the hypothesis of `C10_generated_fresh` is discharged:
+for every pool state and every prefix, the generated name is not the name of a live group and has the documented form. -/
+theorem C10_generated_fresh_all (p : Pool) (pre : String) :
+    (p.groupIds (p.genName pre)).isSome = false ∧
+    ∃ i : Nat, p.genName pre = pre ++ "-worker-group-" ++ toString i :=
+  C10_generated_fresh p pre (generated_names_inj pre)
 
 /-- `start-group-<k>` uses the pool's own counter of accepted `start` calls, which only grows -/
 theorem C10_start_name_counter (p : Pool) (num : Int) (g : String) (h : (p.doStart num).2 = .name g) :
